@@ -341,7 +341,10 @@ func duplicateFullTrigger(
 	isReturnConsumer bool,
 ) annotation.FullTrigger {
 	// TODO: what if we have more than one parameter, planned in future revisions
-	argExpr := callExpr.Args[0]
+	// A contracted function has exactly one declared parameter, and the argument bound to it is
+	// the last one: a call through a method expression, e.g., `(*S).m(recv, arg)`, passes the
+	// receiver first.
+	argExpr := callExpr.Args[len(callExpr.Args)-1]
 	argLoc := pass.PosToLocation(argExpr.Pos())
 
 	// Create the duplicated full trigger
